@@ -45,7 +45,34 @@ pub struct Case {
     pub accept_unsolicited: bool,
 }
 
+/// The browsable types of this check: index 3 is a subtype of type 0 (the other checks that share
+/// this interpreter use indices 0..3 only).
+pub const TYPES: [&str; 4] = [crate::gen::TYPES[0], crate::gen::TYPES[1], crate::gen::TYPES[2], "_printer._sub._http._tcp.local."];
+
+/// What a responder sends for instance `inst` of type `ty`.
+pub fn announcement_of(ty: usize, inst: usize, host_ttl: u32, other_ttl: u32) -> Vec<Record> {
+    let s = svc(ty, inst);
+    let mut recs = s.announcement(host_ttl, other_ttl);
+    if ty % TYPES.len() == 3 {
+        recs.retain(|r| !(r.rtype == T_PTR && r.name == s.ty));
+    }
+    recs
+}
+
 pub fn svc(ty: usize, inst: usize) -> peer::Svc {
+    if ty % TYPES.len() == 3 {
+        // instances of their own, announced the way a subtype PTR question is answered: with the
+        // subtype PTR (no PTR of the base type)
+        return peer::Svc {
+            ty: Name::from_escaped(TYPES[0]),
+            sub: Some(b"_printer".to_vec()),
+            inst: format!("sinst{inst}").into_bytes(),
+            host: Name::from_escaped(&format!("svchost{inst}.local.")),
+            port: 90 + inst as u16,
+            txt: vec![0],
+            addrs: vec![IpAddr::V4(subnet_v4(0, 100 + inst as u8))],
+        };
+    }
     peer::Svc {
         ty: Name::from_escaped(TYPES[ty % TYPES.len()]),
         sub: None,
@@ -207,9 +234,8 @@ pub fn execute(case: &Case, seed: u64) -> Result<Run, String> {
                 }
             }
             Op::Announce { ty, inst, ttl, part } => {
-                let s = svc(*ty, *inst);
                 let other = (*ttl).max(2);
-                let mut recs = s.announcement((*ttl).clamp(2, 120), other);
+                let mut recs = announcement_of(*ty, *inst, (*ttl).clamp(2, 120), other);
                 match part {
                     1 => recs.retain(|r| r.rtype == T_PTR || r.rtype == T_TXT),
                     2 => recs.retain(|r| r.rtype == T_PTR || r.rtype == T_SRV),
@@ -220,8 +246,7 @@ pub fn execute(case: &Case, seed: u64) -> Result<Run, String> {
                 dm.inject(if_index(0), src_for(&case.ifs, 0, 100 + *inst as u8), bytes);
             }
             Op::Goodbye { ty, inst } => {
-                let s = svc(*ty, *inst);
-                let bytes = peer::response(s.announcement(0, 0), vec![]);
+                let bytes = peer::response(announcement_of(*ty, *inst, 0, 0), vec![]);
                 dm.inject(if_index(0), src_for(&case.ifs, 0, 100 + *inst as u8), bytes);
             }
             Op::HostAddr { host, case_var, ttl } => {
@@ -609,16 +634,21 @@ fn judge(case: &Case, run: &Run, ctx: &mut CaseCtx) {
     }
 }
 
+/// Types 0 and 1, and the subtype (index 3).
+fn ty13() -> BoxedStrategy<usize> {
+    prop_oneof![3 => Just(0usize), 2 => Just(1usize), 2 => Just(3usize)].boxed()
+}
+
 pub fn strategy() -> BoxedStrategy<Case> {
     let op = prop_oneof![
-        4 => (0usize..2).prop_map(|ty| Op::Browse { ty }),
-        1 => (0usize..2).prop_map(|ty| Op::BrowseCache { ty }),
-        3 => (0usize..2).prop_map(|ty| Op::StopBrowse { ty }),
+        4 => ty13().prop_map(|ty| Op::Browse { ty }),
+        1 => ty13().prop_map(|ty| Op::BrowseCache { ty }),
+        3 => ty13().prop_map(|ty| Op::StopBrowse { ty }),
         3 => (0usize..3, 0u8..4, proptest::option::weighted(0.5, prop_oneof![Just(1u64), Just(500), Just(2000), Just(20_000), 1u64..100_000])).prop_map(|(host, case_var, timeout_ms)| Op::Resolve { host, case_var, timeout_ms }),
         2 => (0usize..3, 0u8..4).prop_map(|(host, case_var)| Op::StopResolve { host, case_var }),
-        4 => (0usize..2, 0usize..3, prop_oneof![Just(120u32), Just(10), Just(4500), 2u32..200]).prop_map(|(ty, inst, ttl)| Op::Announce { ty, inst, ttl, part: 0 }),
-        2 => (0usize..2, 0usize..3, prop_oneof![Just(120u32), Just(4500)], 1u8..4).prop_map(|(ty, inst, ttl, part)| Op::Announce { ty, inst, ttl, part }),
-        1 => (0usize..2, 0usize..3).prop_map(|(ty, inst)| Op::Goodbye { ty, inst }),
+        4 => (ty13(), 0usize..3, prop_oneof![Just(120u32), Just(10), Just(4500), 2u32..200]).prop_map(|(ty, inst, ttl)| Op::Announce { ty, inst, ttl, part: 0 }),
+        2 => (ty13(), 0usize..3, prop_oneof![Just(120u32), Just(4500)], 1u8..4).prop_map(|(ty, inst, ttl, part)| Op::Announce { ty, inst, ttl, part }),
+        1 => (ty13(), 0usize..3).prop_map(|(ty, inst)| Op::Goodbye { ty, inst }),
         2 => (0usize..3, 0u8..4, prop_oneof![Just(120u32), 2u32..100]).prop_map(|(host, case_var, ttl)| Op::HostAddr { host, case_var, ttl }),
         6 => prop_oneof![Just(0u64), Just(400), Just(1000), Just(3100), Just(20_000), 0u64..10_000, 0u64..200_000].prop_map(|ms| Op::Advance { ms }),
         1 => Just(Op::Shutdown),
